@@ -12,6 +12,11 @@ class Infra(Exception):
     """Infrastructure error -> exit 2, nothing claimed."""
 
 
+# Evidence and replays describe /repo.  A self-test run against a mutated copy of the sources (VERIF_REPO set by
+# tools/mutant.py or tools/seedrun.py) writes them under .cache/mutant-out instead, so that it cannot overwrite
+# what the last run on the real tree recorded.
+OUT = VERIF if os.path.realpath(os.environ.get("VERIF_REPO", "/repo")) == "/repo" else os.path.join(VERIF, ".cache", "mutant-out")
+
 class Ctx:
     def __init__(self, pid, tier, seed, replay=None):
         self.pid = pid
@@ -31,7 +36,7 @@ class Ctx:
         self.work = os.path.join(CACHE, "work", "%s-%s-%d" % (pid, tier, os.getpid()))
         shutil.rmtree(self.work, ignore_errors=True)
         os.makedirs(self.work, exist_ok=True)
-        os.makedirs(os.path.join(VERIF, "replays"), exist_ok=True)
+        os.makedirs(os.path.join(OUT, "replays"), exist_ok=True)
 
     @property
     def quick(self):
@@ -130,7 +135,7 @@ class Ctx:
         if any(v["key"] == key for v in self.violations):
             return
         safe = re.sub(r"[^A-Za-z0-9_.-]+", "_", key)[:80]
-        path = os.path.join(VERIF, "replays", "%s-%s.replay" % (self.pid, safe))
+        path = os.path.join(OUT, "replays", "%s-%s.replay" % (self.pid, safe))
         with open(path, "w") as f:
             f.write(json.dumps({"e": "ReplayHeader", "property": self.pid, "key": key, "what": what,
                                 "tier": self.tier, "seed": self.seed}) + "\n")
@@ -148,8 +153,8 @@ class Ctx:
               "coverage": cov, "assumptions": self.assumptions, "wall_s": round(time.time() - self.t0, 1),
               "violations": len(self.violations),
               "known_findings_hit": self.known_hits, "notes": self.notes[:50]}
-        os.makedirs(os.path.join(VERIF, "evidence"), exist_ok=True)
-        with open(os.path.join(VERIF, "evidence", self.pid + ".json"), "w") as f:
+        os.makedirs(os.path.join(OUT, "evidence"), exist_ok=True)
+        with open(os.path.join(OUT, "evidence", self.pid + ".json"), "w") as f:
             json.dump(ev, f, indent=1)
         for k in self.known_hits:
             print("KNOWN-FINDING: property=%s %s [%s]" % (self.pid, k["what"], k["key"]))
